@@ -24,6 +24,21 @@ def replay(spec):
     corr = {"fourth_order_central_difference": 0 * J, "central_difference": h * h * d3 / 6,
             "forward_difference": h * d2 / 2, "backward_difference": -h * d2 / 2}[method]
     problems = []
+    if spec.get("kind") == "real_model" and spec.get("model") == "dimer":
+        for k2_, A_ in ((0.7, 2.0), (1.3, 5.0), (0.2, 1.0)):
+            Md = Model(species=["A", "B"], parameters=[("k2", k2_)], reactions=[(["A", "A"], ["B"], "massaction", {"k": "k2"})])
+            order = Md.get_species_list()
+            ia, ib = order.index("A"), order.index("B")
+            x = [0.0, 0.0]
+            x[ia], x[ib] = A_, 3.0
+            slope = {"fourth_order_central_difference": 2 * A_, "central_difference": 2 * A_, "forward_difference": 2 * A_ + h, "backward_difference": 2 * A_ - h}[method]
+            gj = np.asarray(py_get_jacobian(Md, list(x), method=method), dtype=float)
+            if abs(gj[ia, ia] + 2 * k2_ * slope) > 1e-6 or abs(gj[ib, ia] - k2_ * slope) > 1e-6:
+                problems.append("2A -> B, k2=%s at A=%s: d(dA/dt)/dA [%s] = %r, the deterministic law k2*A^2 gives %r" % (k2_, A_, method, gj[ia, ia], -2 * k2_ * slope))
+            gz = np.asarray(py_get_sensitivity_to_parameter(Md, list(x), "k2", method=method), dtype=float)
+            if abs(gz[ia] + 2 * A_ * A_) > 1e-6 or abs(gz[ib] - A_ * A_) > 1e-6:
+                problems.append("2A -> B at A=%s: d f/d k2 [%s] = %s, analytic %s" % (A_, method, gz.tolist(), [-2 * A_ * A_, A_ * A_] if ia == 0 else [A_ * A_, -2 * A_ * A_]))
+        return {"reproduced": bool(problems), "observed": problems[:3], "expected": "derivatives of the deterministic rate law"}
     if spec.get("kind") == "real_model":
         from .util import unfrac
         v = unfrac(spec.get("values", {}))
